@@ -33,6 +33,7 @@ type Profile struct {
 	TailProp          string // property under which tail violations are reported (default C05)
 	CommitFailures    bool   // one node's commit callback fails at PRNG-determined heights
 	SyncPct           int    // node-sync steps per hundred (0: default 0..2)
+	ReverseToLaggers  bool   // messages of a height a node has not reached yet are sometimes handed to it COMMITs first, proposal last
 	CommErrors        bool   // the transport sometimes reports an error for a send that went out
 	CommitteeErrors   bool   // a committee request fails once in a while (the library retries after 200 ms of real time: used sparingly)
 	SplitHandoff      bool   // model the main-loop -> worker hand-off of syncs and election triggers as two separate steps
@@ -58,6 +59,9 @@ func GenConfig(rng *rand.Rand, p *Profile) *CaseConfig {
 		cfg.Outsiders[o] = true
 	}
 	shape := rng.Intn(5)
+	if n <= 5 && rng.Intn(12) == 0 {
+		shape = 5 // weights so large that the total exceeds 2^63 (it still fits 64 bits)
+	}
 	weightsFor := func() []uint64 {
 		ws := make([]uint64, n)
 		for i := range ws {
@@ -72,6 +76,8 @@ func GenConfig(rng *rand.Rand, p *Profile) *CaseConfig {
 				ws[i] = uint64(1 + rng.Intn(3)*rng.Intn(4))
 			case 4: // large near-equal
 				ws[i] = uint64(1000 + rng.Intn(3))
+			case 5:
+				ws[i] = 3<<60 + uint64(rng.Intn(4))
 			}
 		}
 		if shape == 2 {
@@ -211,6 +217,7 @@ func RunCase(seed int64, p *Profile, idx int) *Result {
 	w := NewWorld(cfg, rng)
 	w.KeepTrace = p.KeepTrace
 	w.SplitHandoff = p.SplitHandoff
+	w.ReverseToLaggers = p.ReverseToLaggers
 	res := &Result{Case: idx, Seed: cs, Cfg: cfg, StateSet: map[[16]byte]bool{}}
 	adv := NewAdversary(w, p)
 	// consumer-side rejections of good blocks (allowed behaviour)
@@ -351,6 +358,29 @@ func (w *World) randomStep(s *sched, adv *Adversary, step int) string {
 					}
 				}
 			}
+		}
+	}
+	if w.ReverseToLaggers && r.Intn(12) == 0 {
+		// a lagging node gets what is in flight for a higher height in reverse protocol order (its future cache fills COMMITs first)
+		id := w.Order[r.Intn(len(w.Order))]
+		n := w.Nodes[id]
+		nh := uint64(n.St.Height())
+		did := false
+		for _, env := range []ref.Env{ref.EnvC, ref.EnvP, ref.EnvNV, ref.EnvPP} {
+			for i := 0; i < len(w.Pool); i++ {
+				f := w.Pool[i]
+				if f.To == id && f.Msg != nil && f.Msg.Env == env && f.Msg.H == nh+1 && f.Msg.H <= w.Cfg.MaxH {
+					w.TakeFlight(i)
+					i--
+					w.Deliver(f)
+					w.Mon.Stats["delivered"]++
+					did = true
+				}
+			}
+		}
+		if did {
+			w.Mon.Stats["reverse-order batches to laggers"]++
+			return "rv" + id
 		}
 	}
 	if w.SplitHandoff && r.Intn(4) == 0 {
